@@ -53,7 +53,7 @@ def oracle_c10(tr: Trace):
         if st.tag in (5, 6, 7, 10):
             continue
         if e in INTERNAL_NAMES:
-            what = "F9 tracker ValueError on File Data straddling a lost range" if (
+            what = "C10 [fixed finding F9 is back] tracker ValueError on File Data straddling a lost range" if (
                 tr.kind == "dest" and e == 102 and st.pdu is not None and st.pdu["kind"] == codec.K_FD) else \
                 f"C10 internal error {INTERNAL_NAMES[e]} leaked from the {tr.kind} handler"
             raise Failure(f"{what} (op {st.i}, call tag {st.tag}, step before "
@@ -261,7 +261,7 @@ def oracle_c14(tr: Trace):
                 if cond == 5:
                     raise Failure(f"C14 Checksum Failure declared {n} times for one verification [fixed finding F15 is back] (op {st.i})")
                 if cond == 7 and table.get(7) == 3:
-                    raise Failure(f"F22 NAK Limit Reached with handler IGNORE declared {n} times by one call (op {st.i})")
+                    raise Failure(f"C14 [fixed finding F22 is back] NAK Limit Reached with handler IGNORE declared {n} times by one call (op {st.i})")
                 raise Failure(f"C14 condition {cond} reported {n} times by one call (op {st.i})")
         # effect of the configured handler
         f = st.ob["fields"]
@@ -350,16 +350,29 @@ def _c15_source(tr, gate):
                 expects_fin = m_ == 0 or c_
         if st.tag == 0 and st.pdu["kind"] == codec.K_FIN and st.ob["exc"] == 0:
             received_fin = (received_fin or set()) | {(st.pdu["cond"], st.pdu["deliv"], st.pdu["fstatus"])}
+        got = _drained_after(tr, k) if st.tag in (0, 1, 3) and (st.prev is None or st.prev["fields"]["qlen"] == 0) else []
         for e in evs:
             if e[0] == 3:
                 allowed = set(received_fin or ())
                 if not expects_fin or not allowed:
                     allowed.add((0, 0, 3))
+                # a transaction the sender cancels in unacknowledged mode ends with its EOF (cancel): the user is told that
+                # condition, incomplete data, file status unreported
+                for g in got:
+                    if g["kind"] == codec.K_EOF and g["cond"] != 0 and g["mode"] == 1:
+                        allowed = {(g["cond"], 1, 3)}
+                if not expects_fin or (put is not None and (put["mode"] if put["mode"] is not None else rem["mode"]) == 1):
+                    # the same, recognised from the call itself when the EOF (cancel) has not been retrieved yet: a successful
+                    # cancel request, or a fault whose handler is the notice of cancellation, in unacknowledged mode
+                    if st.tag == 3 and st.ob["ret"] == 1:
+                        allowed.add((15, 1, 3))
+                    for x in evs:
+                        if x[0] == 11:
+                            allowed.add((x[3], 1, 3))
                 if tuple(e[3:6]) not in allowed:
                     raise Failure(f"C15 sender's Transaction-Finished reports {tuple(e[3:6])}; the Finished PDU(s) handed in for this "
                                   f"transaction carried {sorted(received_fin or [])} (own success notice (0, 0, 3) when none is "
                                   f"expected) (op {st.i})")
-        got = _drained_after(tr, k) if st.tag in (0, 1, 3) and (st.prev is None or st.prev["fields"]["qlen"] == 0) else []
         for e in evs:
             if e[0] == 1:
                 if started:
@@ -400,7 +413,7 @@ def _c15_source(tr, gate):
             # the transaction ended in this call (not by abandonment): the user must be told
             if (any(g["kind"] == codec.K_EOF and g["cond"] != 0 for g in got) or any(e[0] == 11 for e in evs)) \
                     and st.ob["fields"]["state"] == 0:
-                raise Failure(f"F21 sender transaction cancelled in unacknowledged mode ended without Transaction-Finished "
+                raise Failure(f"C15 [fixed finding F21 is back] sender transaction cancelled in unacknowledged mode ended without Transaction-Finished "
                               f"indication (op {st.i})")
             if not (st.prev["fields"]["cond_code_eof"] not in (-1, 0)):
                 raise Failure(f"C15 sender transaction ended without Transaction-Finished indication (op {st.i})")
